@@ -26,29 +26,11 @@ class Exec:
                  'leftovers', 'log_after_drain', 'mutated')
 
 
-HANG_S = 30.0      # one execute_once call on these small charts takes milliseconds
-
-
-class HangError(Exception):
-    pass
-
-
-def _on_alarm(signum, frame):
-    raise HangError('execute_once did not return within %.0f s (the step never terminates)' % HANG_S)
+from . import HangError      # noqa: E402  (the watchdog lives in mc/__init__.py and covers every execute_once call)
 
 
 def guarded_execute_once(it):
-    """execute_once under a wall-clock watchdog: code under test that loops for ever must become a reported
-    crash, not a check that never ends"""
-    try:
-        signal.signal(signal.SIGALRM, _on_alarm)
-        signal.setitimer(signal.ITIMER_REAL, HANG_S)
-    except ValueError:          # not in the main thread: no watchdog
-        return it.execute_once()
-    try:
-        return it.execute_once()
-    finally:
-        signal.setitimer(signal.ITIMER_REAL, 0)
+    return it.execute_once()
 
 
 class Runner:
